@@ -272,3 +272,64 @@ def mon_c03_zk(world, kind):
                        {'app': world.tmpl[app.name], 'server': app.server,
                         'missing': sorted(missing),
                         'record_traits': rec.get('traits', [])})
+
+
+def mon_c08_start(world, kind):
+    """C08 across a master restart, judged on ZooKeeper alone: a record that
+    the previous master had published under a server that is down (no
+    presence node) inside the retention period, or under a frozen server, is
+    still there after the new master's start-up cycle.  The running master is
+    covered by `cellmon.mon_c08`; this clause closes the gap that the model
+    snapshot of a NEW master already lacks what start-up dropped."""
+    if kind != 'init_schedule':
+        return
+    before = getattr(world, 'records_before_start', None)
+    if not before:
+        return
+    from mc.vclock import CLOCK
+    import sys
+    now = placement_dump(world)
+    scheduled = set(world.children(z.SCHEDULED))
+    live = set(world.children(z.SERVER_PRESENCE))
+    known = set(world.children(z.SERVERS))
+    cell = world.master.cell
+    for (sname, inst) in before:
+        if sname not in known or inst not in scheduled:
+            continue
+        if sname not in cell.members():
+            continue            # server outside the cell: nothing stays there
+        app = cell.apps.get(inst)
+        if app is None:
+            continue
+        if world.truth_blacklisted(inst, app.blacklisted) or app.blacklisted:
+            continue
+        if getattr(app, 'final_rank', None) == sys.maxsize:
+            continue            # over its utilisation cap
+        if (sname, inst) in world.marked:
+            continue
+        kept = (sname, inst) in now
+        if sname not in live:
+            if world.truth.get(sname) != 'down':
+                continue        # death not yet known to the harness clock
+            down_L = world.down_since_L.get(sname)
+            if down_L is None:
+                continue
+            r = app.data_retention_timeout
+            if r is None or CLOCK.L - down_L >= r:
+                continue
+            world.stats['c08_start_retention_checks'] += 1
+            if not kept:
+                world.flag('record-dropped-at-start-within-retention',
+                           'Master.init_schedule',
+                           {'app': world.tmpl.get(inst, inst),
+                            'server': sname, 'down_for': CLOCK.L - down_L,
+                            'retention': r,
+                            'schedule_once': bool(app.schedule_once)})
+        elif world.truth.get(sname) == 'frozen':
+            world.stats['c08_start_frozen_checks'] += 1
+            if not kept:
+                world.flag('record-dropped-at-start-frozen-server',
+                           'Master.init_schedule',
+                           {'app': world.tmpl.get(inst, inst),
+                            'server': sname,
+                            'schedule_once': bool(app.schedule_once)})
